@@ -617,6 +617,26 @@ def special_copy_(rng, mon):
         if res is not None:
             out.wire2 = (57, [1 if same_dtype else 0, 1 if reused else 0, len(sizes)] + sizes + strides, [],
                          [wire_tensor(dummy), wire_tensor(src)], res)
+    # value semantics (C06_copy_value / C18_clone_independent): copy_ copies, it does not alias.  Update the
+    # source in place afterwards: the destination must keep the copied value; then update the destination:
+    # the source must keep its own (torch.Tensor.copy_ behaves so).
+    if out.status == "ok" and s.physical.numel() > 0 and d.physical.numel() > 0:
+        def bump(t):
+            with torch.no_grad():
+                if t.dtype == torch.bool: t.logical_not_()
+                else: t.add_(1.0)
+        try:
+            bump(s.physical)
+            if not U.same(d.to_dense(), sd):
+                out = Outcome("mismatch", detail="after copy_, an in-place update of the SOURCE changed the destination (copy_ aliases instead of copying)")
+            else:
+                s_after = s.to_dense().clone()
+                bump(d.physical)
+                if not U.same(s.to_dense(), s_after):
+                    out = Outcome("mismatch", detail="after copy_, an in-place update of the DESTINATION changed the source (copy_ aliases instead of copying)")
+        except RuntimeError:
+            pass        # in-place update of an overlapping (expanded) storage is refused by torch
+        case["args"] = case["args"] + ["then-inplace"]
     return case, out
 
 def special_stack(rng, mon):
